@@ -103,9 +103,13 @@ class BuildError(Exception):
     pass
 
 
-def kani_codegen(ov, no_default_features=False, stubbing=False, logname="codegen.log"):
-    """One compile for all harnesses. Returns list of harness metadata dicts."""
+def kani_codegen(ov, no_default_features=False, stubbing=False, logname="codegen.log", only=None):
+    """One compile for all harnesses. Returns list of harness metadata dicts.
+    `only`: harness names to generate code for (substring filters; the module text may hold more instances than this run uses)."""
     cmd = ["cargo", "kani", "--only-codegen"]
+    if only and len(only) <= 400:
+        for n in only:
+            cmd += ["--harness", n]
     if no_default_features:
         cmd.append("--no-default-features")
     if stubbing:
